@@ -181,3 +181,43 @@ def rate_block(rate, data):
     from okdmr.dmrlib.etsi.layer2.pdu.rate1_data import Rate1Data
     from okdmr.dmrlib.etsi.layer2.pdu.rate34_data import Rate34Data
     return {"R12": Rate12Data, "R34": Rate34Data, "R1": Rate1Data}[rate](data=data)
+
+
+def scribble(obj, depth=0, seen=None):
+    """the impolite caller: an object the library handed out (or was given) belongs to the caller, who may edit it in place -
+    booleans flipped, integers changed, bit / byte arrays inverted, nested library objects likewise.  Enumeration members,
+    classes and anything not defined by the library are left alone.  Later library calls must not be affected."""
+    import enum
+    from bitarray import bitarray
+    seen = seen if seen is not None else set()
+    if obj is None or id(obj) in seen or depth > 3:
+        return
+    seen.add(id(obj))
+    if isinstance(obj, (enum.Enum, type)) or not type(obj).__module__.startswith("okdmr.dmrlib"):
+        return
+    d = getattr(obj, "__dict__", None)
+    if not isinstance(d, dict):
+        return
+    for k, v in list(d.items()):
+        try:
+            if isinstance(v, bool):
+                d[k] = not v
+            elif isinstance(v, enum.Enum):
+                continue
+            elif isinstance(v, int):
+                d[k] = v ^ 1
+            elif isinstance(v, bitarray):
+                v.invert()
+            elif isinstance(v, bytearray):
+                for i in range(len(v)):
+                    v[i] ^= 0xFF
+            elif isinstance(v, list):
+                for x in v:
+                    scribble(x, depth + 1, seen)
+            elif isinstance(v, dict):
+                for x in v.values():
+                    scribble(x, depth + 1, seen)
+            else:
+                scribble(v, depth + 1, seen)
+        except Exception:  # noqa: read-only slots / properties are not the caller's to edit
+            pass
